@@ -437,6 +437,9 @@ class XML(Filetype):
             return self.build_tree(path=path, options=options)
         except ET.ParseError as pe:
             return f'Error parsing {os.path.basename(path)}: {pe.msg}'
+        except (LookupError, ValueError) as e:
+            # an unknown or unsupported encoding in the XML declaration
+            return f'Error parsing {os.path.basename(path)}: {e!s}'
 
     def get_default_formatter(self) -> XMLFormatter:
         return XMLFormatter.DEFAULT_INSTANCE
